@@ -74,7 +74,7 @@ pub enum Prior {
     /// re-use disabled after the label of the case was sent
     SameThenDisabled,
     /// re-use enabled, a different label sent, then an encap_ext call with the label of the case REFUSED (buffer ending
-    /// inside the extension area) and an encap call refused (3-byte buffer): nothing of it went on the wire
+    /// inside the extension area), an encap call refused for its buffer (3 bytes) and one refused for its PDU length (65534 bytes): nothing of it went on the wire
     OtherThenRefused,
 }
 
@@ -95,6 +95,12 @@ impl Prior {
             Prior::Other | Prior::OtherThenRefused => Some(other),
         }
     }
+}
+
+/// a PDU of 65534 bytes: exceeds the 16-bit total length with every label kind
+pub fn long_pdu() -> &'static [u8] {
+    static LONG: std::sync::OnceLock<Vec<u8>> = std::sync::OnceLock::new();
+    LONG.get_or_init(|| vec![0x4C; 65534])
 }
 
 pub fn build_prior<C: CrcCalculator>(crc: C, prior: Prior, l: Lbl) -> Encapsulator<C> {
@@ -126,6 +132,8 @@ pub fn build_prior<C: CrcCalculator>(crc: C, prior: Prior, l: Lbl) -> Encapsulat
             let _ = do_encap_ext(&mut e, &small, 0, 0x0800, l, &mut tiny, &[(0x0303, vec![1, 2, 3, 4]), (0x0202, vec![5, 6])]);
             let mut tiny3 = [0u8; 3];
             let _ = do_encap(&mut e, &small, 0, 0x0800, l, &mut tiny3);
+            // ... and a call refused because the PDU exceeds the 16-bit total length whatever the label (buffer large enough)
+            let _ = do_encap(&mut e, long_pdu(), 0, 0x0800, l, &mut scratch);
         }
         Prior::SameThenDisabled => {
             send(&mut e, l, &mut scratch);
